@@ -753,6 +753,12 @@ func c19FrameRules(sc *c19Scenario, out []string, sent []c19Sent) (rule, detail 
 			continue
 		}
 		switch m.Type {
+		case "connection_init":
+			// the server handles frames in order: once it has read an (accepted) connection_init every later frame meets
+			// an initialised connection, whenever the acknowledgement shows up in the output
+			if !strings.Contains(f.frame, `"reject":true`) {
+				inited = true
+			}
 		case "subscribe":
 			for _, o := range reply {
 				if o == "close:4409" && active[m.ID] == "" {
